@@ -604,6 +604,31 @@ fn gen_c10(seed: u64) -> Plan {
     if b.rng.chance(1, 4) {
         add(&mut b.plan, b.rng.range(1_000, until), Action::Restart);
     }
+    if b.rng.chance(1, 2) {
+        // the attacker follows a chain of its own whose last blocks carry inconsistent epoch /
+        // difficulty fields, and serves it like an honest node would (valid hashes, chain roots,
+        // MMR proofs): the difficulty verification itself is what has to cope
+        b.plan.chain.pow = PowKind::Dummy;
+        b.plan.chain.base_difficulty = pick(&mut b.rng, &[1_000u64, 50_000, 4_000_000_000]);
+        let rounds = b.rng.range(1, 3);
+        let mut t = b.rng.range(3_000, until / 2 + 3_001);
+        for r in 0..rounds {
+            let back = if b.rng.chance(1, 3) { b.rng.range(1, 4) } else { b.rng.range(1, 60) };
+            let n = back + b.rng.range(1, 40);
+            let spec = Action::ForgeFork {
+                src: 0,
+                back,
+                n,
+                forged: b.rng.range(1, 3),
+                kind: b.rng.below(10) as u8,
+                salt: b.rng.next_u64(),
+            };
+            add(&mut b.plan, t, spec);
+            add(&mut b.plan, t + b.rng.range(1, 3_000), Action::SwitchBranch { peer: attacker, branch: 1 + r as usize });
+            add(&mut b.plan, t + b.rng.range(3_000, 9_000), Action::Connect { peer: attacker });
+            t += b.rng.range(20_000, 60_000);
+        }
+    }
     b.plan.flags = vec!["byz".into(), "no_ban_reconnect_delay".into()];
     finish(b, until, 60_000)
 }
